@@ -247,8 +247,9 @@ def build_pool() -> dict:
     )
     # -- predefined CMaps / shared to-unicode maps
     pool["cjk1"] = _two_pages(
-        {"F1": _cidfont("Ryumin", "90ms-RKSJ-H")}, _text("F1", 12, 72, 700, HexStr(b"\x82\xa0\x82\xa2A")),
-        {"F1": _cidfont("Ryumin", "90ms-RKSJ-V")}, _text("F1", 12, 300, 700, HexStr(b"\x82\xa0\x82\xa2")),
+        # 8141 / 8169 have vertical glyph variants (other CIDs under -V), CID 736 (81A8) reads differently in the H and V unicode maps
+        {"F1": _cidfont("Ryumin", "90ms-RKSJ-H")}, _text("F1", 12, 72, 700, HexStr(b"\x82\xa0\x82\xa2A\x81\x41\x81\xa8")),
+        {"F1": _cidfont("Ryumin", "90ms-RKSJ-V")}, _text("F1", 12, 300, 700, HexStr(b"\x82\xa0\x82\xa2\x81\x41\x81\x69\x81\xa8")),
     )
     pool["cjk2"] = _two_pages(
         {"F1": _cidfont("Ryumin", "Identity-H")}, _text("F1", 12, 72, 700, HexStr(b"\x03\x4b\x03\x4d\x00\x22")),
@@ -300,12 +301,13 @@ def _build_rc4(docid, enc):
     tu = d.add(Stream({}, tounicode_cmap(bfchars=[(b"A", "\u0416"), (b"B", "\u0417")])))
     f1 = d.add(_font("FontA", N("WinAnsiEncoding"), tounicode=tu))
     f2 = d.add(_font("FontA", enc("WinAnsiEncoding", [67, N("eta")])))
-    s1 = d.add(Stream({}, _text("F1", 12, 72, 700, b"ABCD")))
-    s2 = d.add(Stream({}, _text("F1", 12, 72, 700, b"ABCD") + _text("F2", 12, 72, 650, b"AB")))
+    f3 = d.add(_cidfont("Ryumin", "90ms-RKSJ-H"))  # CIDSystemInfo strings are encrypted: deciphered exactly once or the map is lost
+    s1 = d.add(Stream({}, _text("F1", 12, 72, 700, b"ABCD") + _text("F3", 12, 72, 600, HexStr(b"\x82\xa0"))))
+    s2 = d.add(Stream({}, _text("F1", 12, 72, 700, b"ABCD") + _text("F2", 12, 72, 650, b"AB") + _text("F3", 12, 72, 600, HexStr(b"\x82\xa2"))))
     d.set(cat, {"Type": N("Catalog"), "Pages": pages})
     d.set(pages, {"Type": N("Pages"), "Kids": [p1, p2], "Count": 2, "MediaBox": [0, 0, 612, 792]})
-    d.set(p1, {"Type": N("Page"), "Parent": pages, "Resources": {"Font": {"F1": f1}}, "Contents": s1})
-    d.set(p2, {"Type": N("Page"), "Parent": pages, "Resources": {"Font": {"F1": f2, "F2": f1}}, "Contents": s2})
+    d.set(p1, {"Type": N("Page"), "Parent": pages, "Resources": {"Font": {"F1": f1, "F3": f3}}, "Contents": s1})
+    d.set(p2, {"Type": N("Page"), "Parent": pages, "Resources": {"Font": {"F1": f2, "F2": f1, "F3": f3}}, "Contents": s2})
     info = d.add({"Title": b"secret title", "Producer": b"verif"})
     e = _encrypt_doc(d, docid)
     return d.write(cat, info=info, trailer_extra={"Encrypt": e, "ID": [HexStr(docid), HexStr(docid)]})
@@ -917,9 +919,13 @@ def _idrun(args):
 
     install_id(mode)
     la = LAParams(boxes_flow=flow)
-    txt = hl.extract_text(io.BytesIO(pdf), laparams=la)
-    pages = [repr(canon(p)) for p in hl.extract_pages(io.BytesIO(pdf), laparams=la)]
-    return ("ok", [txt] + pages)
+    parts = []
+    try:
+        parts.append(hl.extract_text(io.BytesIO(pdf), laparams=la))
+        parts += [repr(canon(p)) for p in hl.extract_pages(io.BytesIO(pdf), laparams=la)]
+    except Exception as e:  # noqa
+        return ("exc:" + _exc(e), parts)
+    return ("ok", parts)
 
 
 def grid_subsets(tier):
